@@ -144,6 +144,32 @@ def sweep(ctx, n):
                     bad(f"field-depends-on-input-order:{kind}", "H outside depends on face order / winding / vertex numbering", {"vertices": v2.tolist(), "faces": f2.tolist()})
                 if not np.allclose(magpy.getJ(m, inside_pt), Jref):
                     bad(f"inside-depends-on-input-order:{kind}", "inside/outside decision depends on face order / winding", {"vertices": v2.tolist(), "faces": f2.tolist()})
+            if kind == "box":
+                # a box with one corner cut off by a tiny facet (0.1% … 1% of the box), that facet listed FIRST and wound outwards:
+                # the seed of the orientation sweep is a facet whose edges are short compared with the mesh
+                from scipy.spatial import ConvexHull
+                d = nps.uniform(0.5, 2, 3)
+                eps_c = 10.0 ** nps.uniform(-3, -2)
+                corners = np.array([[x, y, z] for x in (0, 1) for y in (0, 1) for z in (0, 1)], float)
+                cut = np.array([[1 - eps_c, 1, 1], [1, 1 - eps_c, 1], [1, 1, 1 - eps_c]])
+                vc = np.concatenate([corners[:-1], cut]) * d
+                hf = ConvexHull(vc).simplices
+                cen = vc.mean(axis=0)
+                nrm = np.cross(vc[hf[:, 1]] - vc[hf[:, 0]], vc[hf[:, 2]] - vc[hf[:, 0]])
+                flip = np.einsum("ij,ij->i", nrm, vc[hf].mean(axis=1) - cen) < 0
+                hf[flip] = hf[flip][:, ::-1]  # all outwards
+                tiny = int(np.argmin(np.linalg.norm(nrm, axis=1)))
+                order = [tiny] + [j for j in range(len(hf)) if j != tiny]
+                fc = hf[order]
+                if rng.random() < 0.5:  # some of the OTHER faces given inside-out
+                    sel = nps.random(len(fc)) < 0.3
+                    sel[0] = False
+                    fc[sel] = fc[sel][:, ::-1]
+                mc = magpy.magnet.TriangularMesh(vertices=vc, faces=fc, polarization=pol, check_selfintersecting="ignore")
+                kinds["chamfer"] = kinds.get("chamfer", 0) + 1
+                if not outward_ok(mc):
+                    bad("orientation:chamfer", f"a box with a corner cut off by a facet of {eps_c:.2g} box sizes, listed first and wound outwards: faces are not all outwards after reorientation",
+                        {"vertices": vc.tolist(), "faces": fc.tolist()})
             # derived meshes
             fdel = np.delete(f, rng.randrange(len(f)), axis=0)
             m = magpy.magnet.TriangularMesh(vertices=v, faces=fdel, polarization=pol, check_open="ignore", check_disconnected="ignore", reorient_faces="ignore", check_selfintersecting="ignore")
